@@ -428,6 +428,18 @@ def make_limit_sampler(cfg_of):
             for b in live:
                 if len(b.getbuffer()) > big and len(v) < 3:
                     v.append(f'step {sched.step}: an upload buffer of {len(b.getbuffer())} bytes (limit {big})')
+        lg = getattr(client, 'track_get', None)
+        if lg is not None:
+            # data received from the service and still referenced: what the deferred queue of a
+            # non-seekable download holds plus the chunk each running request has in hand
+            c = getattr(run, 'requested', None) or run.config
+            n_dl = sum(1 for t in run.spec_transfers if t.get('kind') == 'download') if hasattr(run, 'spec_transfers') else 1
+            lim = n_dl * c.max_in_memory_download_chunks * c.multipart_chunksize + 2 * c.max_request_concurrency * c.io_chunksize
+            run.max_get_held = max(getattr(run, 'max_get_held', 0), lg[0])
+            if lg[0] > lim and len(v) < 3:
+                v.append(f'step {sched.step}: {lg[0]} bytes received from the service are held in memory awaiting their turn '
+                         f'(limit {n_dl} x {c.max_in_memory_download_chunks} parts of {c.multipart_chunksize} + '
+                         f'{2 * c.max_request_concurrency} chunks in hand of {c.io_chunksize} = {lim})')
     return sample
 
 
